@@ -121,7 +121,8 @@ def gen_op(rng, name, npool, opts):  # pylint: disable=too-many-branches,too-man
             'how': rng.choice(['flip', 'trunc', 'empty']),
             'pos': rng.randrange(1 << 16),
             'bit': rng.randrange(8),
-            'via': rng.choice(['bytes', 'short']),
+            'via': rng.choice(['bytes', 'short', 'pack', 'pack_nh2', 'pack_nh1']),
+            'compress': rng.random() < 0.4,
             'seed': rng.randrange(1 << 20),
         }
     raise ValueError(name)
